@@ -48,6 +48,10 @@ TEXTS = {
             "level": "spec/elys/Orders.tla: every escrow account holds at least the amounts of the pending orders it backs; wallet + pending-order amounts per owner and denom are conserved by every tradeshield step except that a successful perpetual execution moves exactly the collateral into a position; cancel returns the whole escrow and removes the order; update/cancel (single and batch) alter only the sender's own orders; an execution request from anyone alters or removes an order only if the market price - probed through the real price functions on the state before the step - satisfies its trigger; orders and escrows change only through tradeshield messages. "
                      "Walks of 50-100 steps (all order types, triggers below/at/above market, owners / other users / bots, batch messages naming arbitrary ids, oracle price moves, executions made to fail through pool health, withdrawals and big positions) run on the REAL ElysApp through FinalizeBlock/Commit; TLC validates every observed step against this and all other contracts.",
             "note": _TB + " No exhaustive model of the order book yet (walks only); the trigger comparison is the specification's, the market price is the implementation's own price function probed on the pre-state."},
+    "C18": {"technique": "TLA+ block-lifecycle contracts (no Halt event; ante moves only the fee; end-blocker starts from the state after the last transaction; failed transaction changes nothing) over real ABCI executions under TLC trace validation; fault-injecting seeded walks",
+            "level": "The real ElysApp is driven through FinalizeBlock/Commit by walks of 120-300 steps that interleave the widest user alphabet (swaps incl. dust and multi-hop, joins/exits down to one share, bond/unbond, leveraged-LP and perpetual opens/closes/bot closes, orders, claims, external incentives) with environment faults: oracle outages of 1-25 blocks under a 3-block / 1-hour price life time, block-time gaps up to 40 days (many epochs at once), fees in uusdc/uatom/uelys/uusdt/WBTC/an unknown IBC denom from 1 base unit, tokens and locked vesting accounts at the zero address before burner epoch ends (burner epoch and Eden incentives configured). "
+                     "A block whose FinalizeBlock or Commit errors or panics is recorded as a Halt event; TLC validates every observed step: no Halt, the ante handler moves exactly the fee, the end-blocker starts from exactly the state the last transaction left (failed transactions left nothing), a failed transaction's post-state equals its pre-state, plus every invariant and contract of all other properties on the degraded states.",
+            "note": _TB + " No exhaustive fault model yet (seeded walks only); governance parameter extremes are not driven."},
     "C08": {"technique": "TLA+ state invariants over leveraged-LP positions + close step contract, TLC trace validation",
             "level": _lvl("C08 is the invariant pool.LeveragedLpAmount = sum of position LP amounts, position LP = shares committed at the position address, open counter = stored positions, nothing left committed at the address of a removed position; checked after every begin-block sweep, transaction and end-block of histories with opens, consolidations, partial/full closes, bot MsgClosePositions and price moves."),
             "note": _TB},
